@@ -124,6 +124,8 @@ def txn_log(draw, st, n_events):
         elif r <= 6:
             if open_.get(pid):
                 specs.append({"kind": "commit", "pid": pid})
+                if draw(st.integers(0, 5)) == 0:
+                    specs[-1]["key_extra"] = b"\x00\x07"       # a marker key with more than (version, type)
                 open_[pid] = False
             else:
                 specs.append({"fmt": "v2", "kind": "data", "n": draw(st.integers(1, 3)), "ts": [9],
@@ -131,6 +133,8 @@ def txn_log(draw, st, n_events):
         elif r <= 8:
             if open_.get(pid) or draw(st.integers(0, 2)) == 0:      # sometimes a solitary abort marker
                 specs.append({"kind": "abort", "pid": pid})
+                if draw(st.integers(0, 5)) == 0:
+                    specs[-1]["key_extra"] = b"\x00\x00\x00\x2a"
                 open_[pid] = False
             else:
                 specs.append({"fmt": "v2", "kind": "data", "n": 1, "ts": [9]})
@@ -222,11 +226,13 @@ def _mk_log(events):
             specs.append({"fmt": "v2", "kind": "data", "n": e[1], "ts": [4]})
         else:
             specs.append({"kind": "commit" if e[0] == "c" else "abort", "pid": e[1]})
+            if len(e) > 2:
+                specs[-1]["key_extra"] = e[2]
     return specs
 
 
 BOUNDARY_LOGS = [
-    [("d", 1, 2), ("a", 1), ("d", 1, 2), ("c", 1), ("d", 1, 1), ("a", 1), ("d", 1, 2), ("c", 1)],
+    [("d", 1, 2), ("a", 1), ("d", 1, 2), ("c", 1, b"\x00\x07"), ("d", 1, 1), ("a", 1, b"\x00\x00\x00\x2a"), ("d", 1, 2), ("c", 1)],
     [("d", 1, 2), ("d", 2, 1), ("a", 1), ("d", 1, 1), ("d", 2, 2), ("c", 2), ("c", 1), ("d", 2, 1), ("a", 2), ("d", 2, 2),
      ("c", 2)],
     [("p", 2), ("a", 0), ("d", 0, 2), ("c", 0), ("p", 1), ("d", 0, 1), ("d", (1 << 32) + 1, 2), ("a", 0), ("c", (1 << 32) + 1),
